@@ -395,14 +395,29 @@ class StmtMixin:
             if r == "raise":
                 yield ("raise", it), s
                 continue
+            if is_const(it) and isinstance(it[1], (tuple, list)) and len(it[1]) <= 16:
+                # a constant table (class-level tuple of rows): the same, with its rows as displays of constants
+                def lift(v):
+                    return ("tuple", tuple(lift(y) for y in v)) if isinstance(v, (tuple, list)) else const(v)
+                it = lift(it[1])
+            if isinstance(it, tuple) and it and it[0] == "constobj":
+                try:
+                    cv = self.constobj_value(it)
+                except Exception:
+                    cv = None
+                if isinstance(cv, (list, tuple)) and len(cv) <= 16:
+                    def lift2(v):
+                        return ("tuple", tuple(lift2(y) for y in v)) if isinstance(v, (tuple, list)) else const(v)
+                    it = lift2(cv)
             if isinstance(it, tuple) and it and it[0] in ("tuple", "list") and len(it) == 2 and isinstance(it[1], tuple) \
-                    and len(it[1]) <= 16 and not n.orelse:
+                    and len(it[1]) <= 16:
                 # a display held in a local (a table of registries, of (registry, method) pairs ..): unrolled exactly
                 elems = it[1]
 
                 def go2(i, s0, elems=elems):
                     if i == len(elems):
-                        yield None, s0
+                        # ended without break: the else clause, if any
+                        yield from (self.block(n.orelse, s0, fx) if n.orelse else [(None, s0)])
                         return
                     for ex, s2 in self.assign(n.target, elems[i], s0, fx, n):
                         if ex is not None:
